@@ -231,7 +231,7 @@ EXTRA = {
  "C09": " Only commit writes the learned map on the event path; the candidate compared by the look-up is built from the parts the commit will see. The save stands under the same two conditions as the insert and nothing else.",
  "C10": " After the in-memory insert the save is attempted under no condition other than the serialisation's outcome, and the write's outcome is not kept in the method's state; "
         "a user auto-correct value reaches the parser only if ASCII and NUL-free.",
- "C11": " The reload gate compares the stored modification time for inequality and a removed file empties the user map. When the file cannot be opened the map is kept only on paths that tested the remembered state's own discriminant with the outcome 'nothing loaded' (no sentinel time value). A changed file (it opens, its time differs) replaces the map on every path, also when it does not parse; the remembered file state may be a private enum whose field-less variants mean 'nothing loaded'.",
+ "C11": " The reload gate compares the stored modification time for inequality and a removed file empties the user map. When the file cannot be opened the map is kept only on paths that tested the remembered state's own discriminant with the outcome 'nothing loaded' (no sentinel time value). A changed file (it opens, its time differs) replaces the map on every path, also when it does not parse; the remembered file state may be a private enum whose field-less variants mean 'nothing loaded'. A replace-and-compare store on its equal side is not an advance of the remembered state; the method factory may select by the variant of a two-variant layout-kind enum.",
  "C12": " Vowel signs are a subset of vowels (class rule); a sign→vowel table written as a function (constant array searched, match returning Some) is read as a finite map; "
         "every option the processor consults is a plain stored value. Class oracles are the complete Unicode sets (Sanskrit vowels and signs included); a row of the sign→vowel tables is demanded for every sign the vowel-sign predicate accepts; the punctuation set contains the apostrophe and the Dari marks and only punctuation. The punctuation set holds every ASCII punctuation character and the two Dari marks.",
  "C13": " Frame rule: nothing else writes the text in the reph routine except a character popped and pushed back under the same condition on every path; the `split_off` form of taking the tail is recognised. The mobility test's classes cover every consonant, independent vowel and vowel sign; the old-reph option is a plain stored value. The mobility test is read as a decision table over the classes of the last three characters (consonant, independent vowel, vowel sign, chandrabindu, other, none) and agrees with the statement on every well-formed ending.",
@@ -239,7 +239,7 @@ EXTRA = {
         "session query) delegate to the method object and return its answer; every value the layout look-up yields reaches the key-value processor; a zo-fola under a left-standing sign tests the consonant under the sign for the joiner.",
  "C15": " Nothing of the Bengali block is in the splitter's special characters (the searched word is the typed word minus punctuation); the search never takes a mutable "
         "reference to a ranked candidate (what is shown is what was measured); the same cleaning written as a filter loop is recognised and evaluated as a set. The cleaning filter removes punctuation and the non-joiner only (letters, signs, digits and U+200D stay).",
- "C17": " One split value per builder: no stage of a list builder builds candidates from a second split of the text (counted per call, so independent of how the builder is cut into functions). Raw typed-text candidates are added by a plain push, never through the duplicate-dropping helper; the smart-quote option is a plain stored value. No string-level edit (replace / trim / case / insert / remove) besides the two per-character maps; characters the quoter adds through string-level calls count as its outputs. The two character maps may be made by one private helper called once per part (a loop of pushes or chars().map().collect(), no iterator adaptor in between), handed over directly or through the split value's rebuilding method, whose own body is checked to store the callback's pair as the two wrapping parts and nothing else.",
+ "C17": " One split value per builder: no stage of a list builder builds candidates from a second split of the text (counted per call, so independent of how the builder is cut into functions). Raw typed-text candidates are added by a plain push, never through the duplicate-dropping helper; the smart-quote option is a plain stored value. No string-level edit (replace / trim / case / insert / remove) besides the two per-character maps; characters the quoter adds through string-level calls count as its outputs. The two character maps may be made by one private helper called once per part (a loop of pushes or chars().map().collect(), no iterator adaptor in between), handed over directly or through the split value's rebuilding method, whose own body is checked to store the callback's pair as the two wrapping parts and nothing else. A helper that pushes f(ch) for a character function handed in is read through that function.",
  "C18": " The joiners of traditional joining are stripped from the name handed to the emoji look-up; one split value per builder (emoji are wrapped with the parts of the converted / curled split value). The split value whose parts wrap the emoji is the one handed to the stage that builds the word candidates; every emoji name of the bundled tables is its own word part under the splitter's punctuation set (five names are not: known findings). Nothing but the ANSI guard and the failed emoticon look-up decides whether a word is looked up as an emoji name.",
  "C19": " User auto-correct values containing NUL never reach a candidate (no interior NUL in returned C strings).",
 }
